@@ -145,6 +145,10 @@ OVERLAYS = {
     "O_position": {"GB": {"positions": {"account_code": [12, 18]}}},
     "O_scalar_over_dict": {"FR": {"positions": 7}},
     "O_dict_over_scalar": {"IT": {"country": {"x": 1}}, "DE": {"positions": {"bank_code": [0, 8]}}},
+    # a dict again where an earlier overlay put a scalar (dict / scalar / dict sandwich over three files)
+    "O_dict_again": {"FR": {"positions": {"bank_code": [0, 5]}}},
+    # keys that differ from an existing one only by case are NEW keys
+    "O_lower_key": {"de": {"bban_length": 1, "iban_length": 5, "bban_spec": "1!n"}, "Xx": {"bban_length": 2, "iban_length": 6, "bban_spec": "2!a", "in_sepa_zone": True}},
 }
 # "zz-site.json" < "zz.json" in file-name order ('-' < '.'), but "zz" < "zz-site" by stem
 OVERLAY_NAMES = ["00_first.json", "Generated.json", "h_between.json", "zz-site.json", "zz.json"]
@@ -259,14 +263,11 @@ def iban_config_problems(files: dict, listing: list):
                     probs.append(("effective country table changed by library calls",
                                   {k: exp.get(k) for k in bad}, {k: got2.get(k) for k in bad}))
     except Exception as e:  # noqa: BLE001
-        # the library's own initialisation may legitimately fail on nonsense such as positions=7
-        if not isinstance(e, (AttributeError, TypeError, KeyError)) or "O_" not in " ".join(
-                k for k in OVERLAYS if OVERLAYS[k] in files.values()):
+        # the library's own initialisation may legitimately fail on nonsense such as positions=7 (the raw
+        # loader comparison for this file set is made by raw_load_problems in any case)
+        nonsense = any(OVERLAYS[k] in files.values() for k in ("O_scalar_over_dict", "O_dict_over_scalar"))
+        if not (nonsense and isinstance(e, (AttributeError, TypeError, KeyError))):
             probs.append((f"loader raises {type(e).__name__}", "table", repr(e)))
-        else:
-            # still compare the raw merge, without the regex attachment
-            with sandbox.package_data(iban_files=files, listing_order=listing, ) as _:
-                pass
     return probs
 
 
